@@ -240,6 +240,18 @@ func (r *Run) Violate(v Violation) {
 	}
 }
 
+// IsKnown reports whether a violation with this key is a listed known finding.
+func (r *Run) IsKnown(key string) bool {
+	r.mu.Lock()
+	defer r.mu.Unlock()
+	for _, k := range r.known {
+		if k.Kind == "known" && k.Match != "" && strings.Contains(key, k.Match) {
+			return true
+		}
+	}
+	return false
+}
+
 func (r *Run) NumViolations() int { r.mu.Lock(); defer r.mu.Unlock(); return len(r.viol) }
 
 // Finish writes evidence, prints protocol lines and exits.
